@@ -238,6 +238,10 @@ class err_handler(object):
         @param err_str: Description of the error
         @type err_str: string
         """
+        if self.cur_gs_node is None:
+            # No functional group is open (orphan GE): report on the interchange
+            self.isa_error(err_cde, err_str)
+            return
         sout = ''
         sout += 'Line:%i ' % (self.cur_gs_node.get_cur_line())
         sout += 'GS:%s - %s' % (err_cde, err_str)
@@ -251,6 +255,10 @@ class err_handler(object):
         @param err_str: Description of the error
         @type err_str: string
         """
+        if self.cur_st_node is None:
+            # No transaction set is open (orphan SE): report on the group
+            self.gs_error(err_cde, err_str)
+            return
         sout = ''
         sout += 'Line:%i ' % (self.cur_st_node.get_cur_line())
         sout += 'ST:%s - %s' % (err_cde, err_str)
